@@ -49,7 +49,7 @@ class World:
                 f["_stop_line"] = Obj(sl, {"_traffic_sign_ref": NONE if stop[0] is None else SetV(stop[0]), "_traffic_light_ref": NONE if stop[1] is None else SetV(stop[1])}, label="stop line of lanelet %d" % k)
             return Obj(lan, f, label="lanelet %d" % k)
 
-        self.lanelets = {1: lanelet(1, list(G), [2, 3], 2, None, [5, 6], [7], ([5] + G, [7, 8])), 2: lanelet(2, [1], [3] + G, None, 1, [5], [8] + G, (None, [8])), 3: lanelet(3, [1, 2], [], 2, GHOST if ghosts else 2, [6] + G, [], None)}
+        self.lanelets = {1: lanelet(1, list(G), [2, 3], 2, None, [5, 6], [7], ([5] + G, [7, 8])), 2: lanelet(2, [1], [3] + G, None, 1, [5], [8] + G, (None, [8])), 3: lanelet(3, [1, 2], [], 2, GHOST if ghosts else 2, [6] + G, [7], None)}
         for k, l in self.lanelets.items():
             n.fields["_lanelets"].d[k] = l
             n.fields["_buffered_polygons"].d[k] = l.fields["_polygon"].fields["shapely_object"]
@@ -168,3 +168,173 @@ def reference_rules(repo, res):
         run("REF-AFTER", "remove_traffic_light", "light %d, referenced by lanelets and stop lines" % k, lambda w, k=k: [k], {"light"}, lambda w, k=k: ["the light is still in the network"] if k in w.net.fields["_traffic_lights"].d else [])
     run("REF-AFTER", "remove_traffic_sign", "id that is not in the network", lambda w: [77], set(), lambda w: [] if set(w.net.fields["_traffic_signs"].d) == {5, 6} else ["signs %s" % sorted(w.net.fields["_traffic_signs"].d)])
     run("REF-AFTER", "remove_intersection", "the intersection", lambda w: [40], set(), lambda w: ["the intersection is still in the network"] if 40 in w.net.fields["_intersections"].d else [])
+
+
+def hanging_rules(repo, res, RULE="REF-HANG"):
+    """Scenario.remove_hanging_lanelet_members(removed lanelets): the signs and lights handed to the scenario's removal
+    functions are exactly those referenced by a removed lanelet and by no remaining one — evaluated on the world above
+    (lanelet 1: signs 5, 6, light 7; lanelet 2: sign 5, light 8; lanelet 3: sign 6, light 7)."""
+    SC = "commonroad/scenario/scenario.py"
+    sc = repo.cls(SC, "Scenario")
+    fn = sc.methods.get("remove_hanging_lanelet_members")
+    if fn is None:
+        raise AnalysisError("Scenario.remove_hanging_lanelet_members missing")
+    qn = "Scenario.remove_hanging_lanelet_members"
+    cases = [([1], [], []), ([2], [], [8]), ([3], [], []), ([1, 2], [5], [8]), ([1, 3], [6], [7]), ([1, 2, 3], [5, 6], [7, 8])]
+    for removed, want_signs, want_lights in cases:
+        w = World(repo, ghosts=False)
+        calls = {"sign": [], "light": []}
+        ev = w.ev
+        ev.stubs["Scenario.remove_traffic_sign"] = lambda a: (calls["sign"].append(a.get("traffic_sign")), NONE)[1]
+        ev.stubs["Scenario.remove_traffic_light"] = lambda a: (calls["light"].append(a.get("traffic_light")), NONE)[1]
+        me = Obj(sc, {"_lanelet_network": w.net}, label="scenario")
+        label = "removing lanelet%s %s" % ("s" if len(removed) > 1 else "", ", ".join(map(str, removed)))
+        bad = []
+        try:
+            ev.call_fn(ev.bind(fn, sc, me), [ListV([w.lanelets[k] for k in removed])], {}, fn)
+            for kind, want, table, idf in (("sign", want_signs, "_traffic_signs", "_traffic_sign_id"), ("light", want_lights, "_traffic_lights", "_traffic_light_id")):
+                got = []
+                for a in calls[kind]:
+                    items = a.items if isinstance(a, ListV) else [a]
+                    for x in items:
+                        if isinstance(x, Obj) and idf in x.fields and w.net.fields[table].d.get(x.fields[idf]) is x:
+                            got.append(x.fields[idf])
+                        else:
+                            bad.append("hands %s to the %s removal" % (show(x), kind))
+                if sorted(got) != want:
+                    bad.append("removes the %ss %s; referenced by the removed and by no remaining lanelet are %s" % (kind, sorted(got), want))
+        except _Raise as x:
+            bad.append("raises %s" % x.what)
+        except Undecided as x:
+            raise AnalysisError("%s [%s]: %s" % (qn, label, x))
+        res.check(RULE, "%s [%s]: exactly the signs and lights no remaining lanelet references go" % (qn, label), not bad, sc.mod, fn, "%s [%s]: %s" % (qn, label, "; ".join(bad[:2])), "signs / lights are removed although a remaining lanelet still references them, or hanging ones are kept", qualname=qn)
+
+
+def cut_out_rules(repo, res, RULE="REF-CUT"):
+    """LaneletNetwork.create_from_lanelet_network(network, shape / excluded types): evaluated on the world above; the
+    new network holds copies of exactly the selected lanelets, the signs and lights those reference, intersections
+    restricted to them, and no reference to anything that was cut away; the source network is as before."""
+    from ..strdom import EnumMember, PyFunc
+
+    net_cls = repo.cls(LA, "LaneletNetwork")
+    fn = net_cls.methods.get("create_from_lanelet_network")
+    if fn is None:
+        raise AnalysisError("LaneletNetwork.create_from_lanelet_network missing")
+    qn = "LaneletNetwork.create_from_lanelet_network"
+    lt = repo.cls(CL, "LaneletType")
+    members = list(lt.enum_members())
+    if len(members) < 3:
+        raise AnalysisError("LaneletType has fewer than 3 members")
+
+    def member(i):
+        return EnumMember(lt, members[i], Str_lit(members[i]))
+
+    from ..strdom import Str
+
+    def Str_lit(x):
+        return Str.lit(x)
+
+    types = {1: [0], 2: [1], 3: [0, 2]}
+    # (label, excluded type indices, lanelets the shape touches or None, kept lanelets)
+    cases = [
+        ("nothing cut away", [], None, {1, 2, 3}),
+        ("lanelets of one type excluded", [1], None, {1, 3}),
+        ("a shape that touches lanelets 2 and 3", [], {2, 3}, {2, 3}),
+        ("a shape that touches lanelets 1 and 2, one type excluded", [2], {1, 2, 3}, {1, 2}),
+        ("only lanelet 3 left", [1], {2, 3}, {3}),
+        # without the final clean-up the lanelets keep their relations as they were (that is what the switch asks for);
+        # the intersections are rebuilt by the function itself and must name selected lanelets only
+        ("lanelets of one type excluded, clean-up switched off", [1], None, {1, 3}),
+        ("a shape that touches lanelets 2 and 3, clean-up switched off", [], {2, 3}, {2, 3}),
+    ]
+    for label, excl, touched, kept in cases:
+        cleanup = "switched off" not in label
+        w = World(repo, ghosts=False)
+        ev = w.ev
+        ev.instantiate = {"LaneletNetwork", "Intersection", "IntersectionIncomingElement"}
+        ev.assume_valid = True
+        for k, l in w.lanelets.items():
+            l.fields["_lanelet_type"] = SetV([member(i) for i in types[k]])
+            l.fields["_adjacent_areas"] = SetV([])
+        shape = NONE
+        if touched is not None:
+            geos = {id(w.lanelets[k].fields["_polygon"].fields["shapely_object"]): k for k in w.lanelets}
+            sg = geometry("geometry of the cut-out shape")
+
+            def intersects(a, kw, geos=geos, touched=touched):
+                g = a[0]
+                if id(g) not in geos:
+                    raise Undecided("the cut-out shape is compared with %s" % show(g))
+                return geos[id(g)] in touched
+
+            sg.fields["intersects"] = PyFunc(intersects, "intersects")
+            for k, l in w.lanelets.items():
+                g = l.fields["_polygon"].fields["shapely_object"]
+                g.fields["intersects"] = PyFunc(lambda a, kw, k=k, sg=sg, touched=touched: (k in touched) if a[0] is sg else (_ for _ in ()).throw(Undecided("lanelet geometry compared with %s" % show(a[0]))), "intersects")
+            shape = Obj(None, {"shapely_object": sg}, closed=True, label="cut-out shape")
+        before = w.refs()
+        src_ids = {t: set(w.net.fields[t].d) for t in ("_lanelets", "_traffic_signs", "_traffic_lights", "_intersections")}
+        bad = []
+        try:
+            new = ev.call_fn(ev.bind(fn, net_cls, None, via_class=ClassRef(net_cls)), [w.net, shape, SetV([member(i) for i in excl])], {} if cleanup else {"cleanup_ids": False}, fn)
+            if not isinstance(new, Obj) or "_lanelets" not in new.fields:
+                raise Undecided("result is %s" % show(new))
+            f = new.fields
+            got = set(f["_lanelets"].d)
+            if got != kept:
+                bad.append("the new network holds lanelets %s, selected are %s" % (sorted(got), sorted(kept)))
+            for k, l in f["_lanelets"].d.items():
+                if l is w.lanelets.get(k):
+                    bad.append("lanelet %s of the new network is the source network's object, not a copy" % k)
+            want_signs = set().union(*[set(w.lanelets[k].fields["_traffic_signs"].items) for k in kept]) if kept else set()
+            want_lights = set().union(*[set(w.lanelets[k].fields["_traffic_lights"].items) for k in kept]) if kept else set()
+            if set(f["_traffic_signs"].d) != want_signs:
+                bad.append("signs %s copied, the selected lanelets reference %s" % (sorted(f["_traffic_signs"].d), sorted(want_signs)))
+            if set(f["_traffic_lights"].d) != want_lights:
+                bad.append("lights %s copied, the selected lanelets reference %s" % (sorted(f["_traffic_lights"].d), sorted(want_lights)))
+            # references inside the new network
+            for k, l in f["_lanelets"].d.items() if cleanup else []:
+                for a in ("_predecessor", "_successor"):
+                    dang = sorted(set(x for x in l.fields[a].items if isinstance(x, int)) - got)
+                    want = sorted(set(w.lanelets[k].fields[a].items) & kept)
+                    if dang:
+                        bad.append("lanelet %s.%s still names %s" % (k, a[1:], dang))
+                    elif sorted(l.fields[a].items) != want:
+                        bad.append("lanelet %s.%s is %s, the relations among the selected lanelets are %s" % (k, a[1:], sorted(l.fields[a].items), want))
+                for a in ("_adj_left", "_adj_right"):
+                    v = l.fields[a]
+                    src = w.lanelets[k].fields[a]
+                    if v is not NONE and v not in got:
+                        bad.append("lanelet %s.%s still names %s" % (k, a[1:], show(v)))
+                    elif src is not NONE and src in kept and v != src:
+                        bad.append("lanelet %s.%s lost its reference to %s" % (k, a[1:], src))
+            for iid, inter in f["_intersections"].d.items():
+                if inter is w.intersection:
+                    bad.append("the intersection of the new network is the source network's object")
+                incs = inter.fields["_incomings"].items
+                for inc in incs:
+                    src = [x for x in w.incomings if x.fields["_incoming_id"] == inc.fields["_incoming_id"]]
+                    for a in ("_incoming_lanelets", "_successors_right", "_successors_straight", "_successors_left"):
+                        ids = set(inc.fields[a].items)
+                        if ids - got:
+                            bad.append("incoming %s.%s still names %s" % (show(inc.fields["_incoming_id"]), a[1:], sorted(ids - got)))
+                        elif src and ids != set(src[0].fields[a].items) & kept:
+                            bad.append("incoming %s.%s is %s, expected %s" % (show(inc.fields["_incoming_id"]), a[1:], sorted(ids), sorted(set(src[0].fields[a].items) & kept)))
+                cr = set(inter.fields["_crossings"].items)
+                if cr - got:
+                    bad.append("intersection %s.crossings still names %s" % (iid, sorted(cr - got)))
+                elif cr != set(w.intersection.fields["_crossings"].items) & kept:
+                    bad.append("intersection %s.crossings is %s, expected %s" % (iid, sorted(cr), sorted(set(w.intersection.fields["_crossings"].items) & kept)))
+            if kept == {1, 2, 3} and 40 not in f["_intersections"].d:
+                bad.append("the intersection is missing although nothing was cut away")
+            # the source network is untouched
+            if w.refs() != before:
+                bad.append("the source network's references changed")
+            for t, ids in src_ids.items():
+                if set(w.net.fields[t].d) != ids:
+                    bad.append("the source network's %s changed" % t[1:])
+        except _Raise as x:
+            bad.append("raises %s" % x.what)
+        except Undecided as x:
+            raise AnalysisError("%s [%s]: %s" % (qn, label, x))
+        res.check(RULE, "%s [%s]: copies of exactly the selected elements, no reference to anything cut away" % (qn, label), not bad, net_cls.mod, fn, "%s [%s]: %s" % (qn, label, "; ".join(bad[:3])), "the cut-out network misses a selected element, holds one that was not selected, or refers to a lanelet that was cut away", qualname=qn)
